@@ -2,6 +2,7 @@
 //   - the virtual hook package <module>/vhook (add-only, lives only in the overlay);
 //   - add-only export files from /verif/overlay/ (rule "export");
 //   - mechanically rewritten copies of working-tree files (rules "points", "clock", "pagesize").
+//
 // A rule whose target is absent is skipped and reported, never fatal.
 package main
 
@@ -65,6 +66,10 @@ func Point(site string) {
 	}
 }
 
+// BlockFn is called where an instrumented thread has to wait for a condition; nil means that no
+// controlled scheduler is installed (the caller then uses the real primitive).
+var BlockFn func(site string, ready func() bool)
+
 // AfterFn replaces time.After inside instrumented packages; nil means real time.
 var AfterFn func(d time.Duration) <-chan time.Time
 
@@ -74,6 +79,162 @@ func After(d time.Duration) <-chan time.Time {
 		return f(d)
 	}
 	return time.After(d)
+}
+`
+
+// vsyncSrc stands in for package sync in files instrumented with scheduling points: under a
+// controlled scheduler (vhook.BlockFn set) locks, once and wait groups become blocking scheduling
+// points decided by the scheduler - a thread that has to wait is disabled instead of parking its
+// goroutine while it holds the scheduler's baton; without a scheduler they are the real primitives
+// (the free-running -race pass). Types that never block are aliases of the real ones.
+const vsyncSrc = `// Package sync is the stand-in for the standard package in instrumented files (/verif overlay).
+package sync
+
+import (
+	stdsync "sync"
+
+	"` + module + `/vhook"
+)
+
+type (
+	Map    = stdsync.Map
+	Pool   = stdsync.Pool
+	Locker = stdsync.Locker
+)
+
+// Mutex is a mutual exclusion lock whose waiting is visible to the controlled scheduler.
+type Mutex struct {
+	mu   stdsync.Mutex
+	held bool
+}
+
+func (m *Mutex) Lock() {
+	if f := vhook.BlockFn; f != nil {
+		f("sync.Mutex.Lock", func() bool { return !m.held })
+		m.held = true
+		return
+	}
+	m.mu.Lock()
+}
+
+func (m *Mutex) TryLock() bool {
+	if vhook.BlockFn != nil {
+		vhook.Point("sync.Mutex.TryLock")
+		if m.held {
+			return false
+		}
+		m.held = true
+		return true
+	}
+	return m.mu.TryLock()
+}
+
+func (m *Mutex) Unlock() {
+	if vhook.BlockFn != nil {
+		if !m.held {
+			panic("sync: unlock of unlocked mutex")
+		}
+		m.held = false
+		vhook.Point("sync.Mutex.Unlock")
+		return
+	}
+	m.mu.Unlock()
+}
+
+// RWMutex is a reader/writer lock whose waiting is visible to the controlled scheduler.
+type RWMutex struct {
+	mu      stdsync.RWMutex
+	writer  bool
+	readers int
+}
+
+func (m *RWMutex) Lock() {
+	if f := vhook.BlockFn; f != nil {
+		f("sync.RWMutex.Lock", func() bool { return !m.writer && m.readers == 0 })
+		m.writer = true
+		return
+	}
+	m.mu.Lock()
+}
+
+func (m *RWMutex) Unlock() {
+	if vhook.BlockFn != nil {
+		m.writer = false
+		vhook.Point("sync.RWMutex.Unlock")
+		return
+	}
+	m.mu.Unlock()
+}
+
+func (m *RWMutex) RLock() {
+	if f := vhook.BlockFn; f != nil {
+		f("sync.RWMutex.RLock", func() bool { return !m.writer })
+		m.readers++
+		return
+	}
+	m.mu.RLock()
+}
+
+func (m *RWMutex) RUnlock() {
+	if vhook.BlockFn != nil {
+		m.readers--
+		vhook.Point("sync.RWMutex.RUnlock")
+		return
+	}
+	m.mu.RUnlock()
+}
+
+func (m *RWMutex) RLocker() Locker { return (*rlocker)(m) }
+
+type rlocker RWMutex
+
+func (r *rlocker) Lock()   { (*RWMutex)(r).RLock() }
+func (r *rlocker) Unlock() { (*RWMutex)(r).RUnlock() }
+
+// Once runs a function once; a second caller waits, visibly, until the first has finished.
+type Once struct {
+	once    stdsync.Once
+	running bool
+	done    bool
+}
+
+func (o *Once) Do(f func()) {
+	if b := vhook.BlockFn; b != nil {
+		b("sync.Once.Do", func() bool { return !o.running })
+		if o.done {
+			return
+		}
+		o.running = true
+		defer func() { o.running, o.done = false, true }()
+		f()
+		return
+	}
+	o.once.Do(f)
+}
+
+// WaitGroup waits, visibly, for a counter to reach zero.
+type WaitGroup struct {
+	wg stdsync.WaitGroup
+	n  int
+}
+
+func (w *WaitGroup) Add(d int) {
+	if vhook.BlockFn != nil {
+		w.n += d
+		vhook.Point("sync.WaitGroup.Add")
+		return
+	}
+	w.wg.Add(d)
+}
+
+func (w *WaitGroup) Done() { w.Add(-1) }
+
+func (w *WaitGroup) Wait() {
+	if b := vhook.BlockFn; b != nil {
+		b("sync.WaitGroup.Wait", func() bool { return w.n <= 0 })
+		return
+	}
+	w.wg.Wait()
 }
 `
 
@@ -102,6 +263,8 @@ func main() {
 	}
 	put(full, "vhook/vhook.go", "vhook.go", []byte(vhookSrc))
 	noexp[filepath.Join(*repo, "vhook/vhook.go")] = full[filepath.Join(*repo, "vhook/vhook.go")]
+	put(full, "vhook/vsync/sync.go", "vsync.go", []byte(vsyncSrc))
+	noexp[filepath.Join(*repo, "vhook/vsync/sync.go")] = full[filepath.Join(*repo, "vhook/vsync/sync.go")]
 	var skipped []string
 	for _, r := range perProp[*prop] {
 		switch r.kind {
@@ -218,6 +381,13 @@ func instrumentPoints(path, rel string) ([]byte, error) {
 		}
 		return true
 	})
+	// package sync -> the stand-in whose waiting the scheduler can see (same package name, so no
+	// other identifier changes)
+	for _, im := range f.Imports {
+		if im.Path.Value == `"sync"` {
+			im.Path.Value = strconv.Quote(module + "/vhook/vsync")
+		}
+	}
 	addImport(f, module+"/vhook")
 	return render(fset, f)
 }
